@@ -57,7 +57,7 @@ func (x *Exec) inlinable(callee *ssa.Function) bool {
 
 // inlineCall executes callee on args in the caller's current state and returns
 // the merged results.
-func (x *Exec) inlineCall(callee *ssa.Function, args []Val) []Val {
+func (x *Exec) inlineCall(callee *ssa.Function, args []Val, ssaArgs []ssa.Value) []Val {
 	e := x.enc
 	sub := newExec(e, callee, x.name, x.fc)
 	sub.parent = x
@@ -72,8 +72,12 @@ func (x *Exec) inlineCall(callee *ssa.Function, args []Val) []Val {
 	sub.refined = nil
 	sub.entryGuard = x.guard
 	sub.alias = nil
+	sub.paramArgs = map[*ssa.Parameter]ssa.Value{}
 	for i, p := range callee.Params {
 		sub.vals[p] = args[i]
+		if i < len(ssaArgs) {
+			sub.paramArgs[p] = ssaArgs[i]
+		}
 	}
 	sub.st = x.st
 	sub.findLoops()
